@@ -116,6 +116,7 @@ fn main() {
             match kind.as_str() {
                 "c13" => props::c13::child_main(Path::new(&file)),
                 "c11" => props::c11::child_main(Path::new(&file)),
+                "c20" => props::c20::child_main(Path::new(&file)),
                 "c03" => props::c03::child_main(Path::new(&file)),
                 "c04" => props::c04::child_main(Path::new(&file)),
                 other => {
